@@ -45,7 +45,7 @@ package services
 // NewLimiter starts with an empty map and Allow, its only mutator, is proved to preserve it.
 //@ func (*tftpService).Handle
 //@   physical limOK(s.limiter) && stored(s.limiter) && 0 <= conn.written && conn.written < 1<<49 && 0 <= totalgrants && totalgrants < 1<<49
-//@   requires conn != nil
+//@   requires conn != nil && s.buffers != nil
 //@   callpre (*Limiter).Allow: ip == raddr(conn)
 //@   ensures [amp] isUDP(conn) ==> conn.written - old(conn.written) <= totalgrants - old(totalgrants)
 //@   modifies *
@@ -79,6 +79,11 @@ package services
 //
 // Connection isolation of the tftp transfers (property C03): the map of transfers is shared by the
 // handlers of all clients; its two accessors touch the entry of the client's own address only.
+// The constructor makes the map (the precondition of the accessors and of Handle).
+//@ func TFTP
+//@   ensures [map-made] typeis(result, *tftpService) && unbox(result, *tftpService) != nil && unbox(result, *tftpService).buffers != nil
+//@   modifies *
+//
 //@ func (*tftpService).putFile
 //@   check safety,frame
 //@   requires s.buffers != nil
